@@ -18,8 +18,8 @@ META = {
              "non-trivial = >= 2 QEC cycles (or QUTRIT calibration) and a non-default setting"),
     "assumptions": ["channel match m(a,b) from the statement (same qubit and same channel or one is ALL); zero-length operations only count against barriers"],
     "floors": {
-        "quick": {"circuits_swept": 3000, "interval_pairs_checked": 200, "barrier_checks": 100, "readout_lt_microwave": 300, "calibration_circuits": 200, "operations_observed": 200000},
-        "thorough": {"circuits_swept": 30000, "readout_lt_microwave": 3000, "calibration_circuits": 2000, "operations_observed": 2000000},
+        "quick": {"circuits_swept": 3000, "adjacent_pairs_compared": 100000, "barrier_neighbours_compared": 20000, "readout_lt_microwave": 300, "calibration_circuits": 200, "operations_observed": 200000},
+        "thorough": {"circuits_swept": 30000, "adjacent_pairs_compared": 1000000, "barrier_neighbours_compared": 200000, "readout_lt_microwave": 3000, "calibration_circuits": 2000, "operations_observed": 2000000},
     },
 }
 
@@ -66,14 +66,19 @@ def sweep(ops, times, acc: Acc) -> List[Dict[str, Any]]:
         n = len(items)
         for i in range(n):
             s1, e1, k1, c1, b1 = items[i]
+            if i + 1 < n:
+                # the sweep always compares an entry with its successor on the qubit (the loop below stops there if they are disjoint)
+                acc.count("adjacent_pairs_compared")
+                if b1 or items[i + 1][4]:
+                    acc.count("barrier_neighbours_compared")
             for j in range(i + 1, n):
                 s2, e2, k2, c2, b2 = items[j]
                 if s2 >= e1 - TOL:
                     break
-                acc.count("interval_pairs_checked")
+                acc.count("time_overlapping_pairs")
                 zero1, zero2 = e1 - s1 <= TOL, e2 - s2 <= TOL
                 if b1 or b2:
-                    acc.count("barrier_checks")
+                    acc.count("time_overlapping_pairs_with_barrier")
                     # nothing may lie inside a barrier on one of its qubits (zero-length: strictly inside)
                     if zero1 or zero2:
                         inside = (s1 + TOL < s2 < e1 - TOL) if zero2 else (s2 + TOL < s1 < e2 - TOL)
